@@ -1,0 +1,72 @@
+//go:build verif
+
+// Verification hook for property C28 (remote action digests are canonical).
+// Add-only: exports the unexported dirBuilder and buildEnv to the correspondence harness in /verif.
+// Nothing here is compiled without the `verif` build tag.
+
+package remote
+
+import (
+	"path/filepath"
+
+	"github.com/bazelbuild/remote-apis-sdks/go/pkg/uploadinfo"
+	pb "github.com/bazelbuild/remote-apis/build/bazel/remote/execution/v2"
+
+	"github.com/thought-machine/please/src/core"
+)
+
+// VerifDirBuilder wraps a dirBuilder constructed with a nil client (walk never uses the client).
+type VerifDirBuilder struct{ b *dirBuilder }
+
+// VerifNewDirBuilder is newDirBuilder(nil).
+func VerifNewDirBuilder() *VerifDirBuilder { return &VerifDirBuilder{b: newDirBuilder(nil)} }
+
+// Dir is dirBuilder.Dir.
+func (v *VerifDirBuilder) Dir(name string) *pb.Directory { return v.b.Dir(name) }
+
+// AddOutputs adds the output files, directories and symlinks of one dependency exactly as the
+// loops of uploadInputDir (action.go) do for a non-filegroup target.
+func (v *VerifDirBuilder) AddOutputs(pkgName string, o *pb.Directory) {
+	b := v.b
+	for _, f := range o.Files {
+		d := b.Dir(filepath.Join(pkgName, filepath.Dir(f.Name)))
+		d.Files = append(d.Files, &pb.FileNode{
+			Name:         filepath.Base(f.Name),
+			Digest:       f.Digest,
+			IsExecutable: f.IsExecutable,
+		})
+	}
+	for _, d := range o.Directories {
+		dir := b.Dir(filepath.Join(pkgName, filepath.Dir(d.Name)))
+		dir.Directories = append(dir.Directories, &pb.DirectoryNode{
+			Name:   filepath.Base(d.Name),
+			Digest: d.Digest,
+		})
+	}
+	for _, s := range o.Symlinks {
+		d := b.Dir(filepath.Join(pkgName, filepath.Dir(s.Name)))
+		d.Symlinks = append(d.Symlinks, &pb.SymlinkNode{
+			Name:   filepath.Base(s.Name),
+			Target: s.Target,
+		})
+	}
+}
+
+// Build is dirBuilder.Build; every directory proto walk digests is also sent to ch (if non-nil).
+func (v *VerifDirBuilder) Build(ch chan<- *uploadinfo.Entry) *pb.Directory { return v.b.Build(ch) }
+
+// Dirs exposes the builder's directory map (read-only use).
+func (v *VerifDirBuilder) Dirs() map[string]*pb.Directory { return v.b.dirs }
+
+// VerifBuildEnv runs Client.buildEnv on a client that has only the fields buildEnv reads.
+func VerifBuildEnv(env map[string]string, pleaseLocation, userHome string, haveTarget, isBinary, sandbox bool) []*pb.Command_EnvironmentVariable {
+	state := core.NewDefaultBuildState()
+	state.Config.Please.Location = pleaseLocation
+	c := &Client{state: state, userHome: userHome}
+	var target *core.BuildTarget
+	if haveTarget {
+		target = core.NewBuildTarget(core.NewBuildLabel("pkg", "t"))
+		target.IsBinary = isBinary
+	}
+	return c.buildEnv(target, core.BuildEnv(env), sandbox)
+}
